@@ -19,7 +19,7 @@ MAX_PATHS = 4000
 TRACE = bool(os.environ.get('VERIF_CVC_TRACE'))
 SAFETY_KINDS = ('frame', 'in_bounds', 'null_deref', 'use_after_free', 'double_free', 'free_valid', 'leak', 'no_overflow', 'shift_range',
                 'div_by_zero', 'memcpy_overlap', 'assert', 'unwind')
-FUNCTIONAL_KINDS = ('ensures', 'requires_at_call', 'loop_inv_entry', 'loop_inv_preserved', 'loop_variant', 'lemma')
+FUNCTIONAL_KINDS = ('ensures', 'requires_at_call', 'loop_inv_entry', 'loop_inv_preserved', 'loop_variant', 'lemma', 'loop_lemma')
 
 
 class FunctionRun:
@@ -334,7 +334,7 @@ def _solver(strategy):
 _skn = [0]
 
 
-def split_goal(g, limit=12):
+def split_goal(g, limit=40):
     """valid(g) <=> every piece valid: conjunctions in positive positions are split through `Implies` and outer `ForAll`
     (whose variables become fresh constants).  Smaller queries are much steadier for the solver."""
     if z3.is_and(g):
@@ -562,7 +562,7 @@ def check(pc, goal, timeout_ms):
     # a goal about array contents needs the quantified (heavy) hypotheses about those arrays: skip the light levels
     arrays = {d for d in gs if d in _array_syms}
     if arrays and any(h and (syms[i] & arrays) for i, (n, h) in enumerate(sizes)):
-        levels = (('L4', (1500, True, 2)),)
+        levels = (('L3', (200, False, 3)), ('L4', (1500, True, 2)))
     for name, (mx, heavy, depth) in levels:
         sub = select(mx, heavy, depth)
         if len(sub) == len(pc) or len(sub) in tried:
